@@ -4,6 +4,8 @@
 
 mod common;
 mod c02;
+mod c04;
+mod cpr_ref;
 mod c13;
 mod c14;
 mod c18;
@@ -87,6 +89,7 @@ fn main() {
 fn dispatch(id: &str, ctx: &Ctx, rep: &Report) {
     match id {
         "C02" => c02::run(ctx, rep),
+        "C04" => c04::run(ctx, rep),
         "C13" => c13::run(ctx, rep),
         "C14" => c14::run(ctx, rep),
         "C18" => c18::run(ctx, rep),
@@ -100,6 +103,7 @@ fn dispatch(id: &str, ctx: &Ctx, rep: &Report) {
 fn dispatch_replay(id: &str, w: &serde_json::Value, rep: &Report) {
     match id {
         "C02" => c02::replay(w, rep),
+        "C04" => c04::replay(w, rep),
         "C13" => c13::replay(w, rep),
         "C14" => c14::replay(w, rep),
         "C18" => c18::replay(w, rep),
